@@ -666,6 +666,40 @@ func c09Exec(t *testing.T, rng *vrng, transport string, plan []string) (c09In, c
 			} else {
 				in.Steps = append(in.Steps, c09Step{T: "missed-check", C: conf})
 			}
+		case strings.HasPrefix(p, "block-query-fails"):
+			// the monitor's block-number query fails once — the transport gave up on its own
+			// request (an error that wraps context.Canceled / DeadlineExceeded although nobody
+			// shut the monitor down), or a plain error — and the node is fine again afterwards:
+			// nothing is learnt, nothing is lost, the rounds that follow work as before
+			if closed {
+				continue
+			}
+			var e error
+			switch p {
+			case "block-query-fails-canceled":
+				e = fmt.Errorf("Post \"http://node\": %w", context.Canceled)
+			case "block-query-fails-deadline":
+				e = fmt.Errorf("Post \"http://node\": %w", context.DeadlineExceeded)
+			default:
+				e = errInjected
+			}
+			h.stub.mu.Lock()
+			h.stub.blockErr, h.stub.blockErrN = e, 1
+			before := h.stub.blockErrHit
+			h.stub.mu.Unlock()
+			select {
+			case mon.newTxAdded <- struct{}{}:
+			case <-time.After(time.Second):
+			}
+			waitFor(func() bool {
+				h.stub.mu.Lock()
+				defer h.stub.mu.Unlock()
+				return h.stub.blockErrHit > before
+			})
+			h.stub.mu.Lock()
+			h.stub.blockErrN = 0
+			h.stub.mu.Unlock()
+			time.Sleep(2 * time.Millisecond)
 		case p == "abandon":
 			// a party stops waiting (its context ends) before its transaction is resolved; its
 			// channel stays in the row and the later delivery must not be held up by it
@@ -1026,6 +1060,8 @@ func TestVerifC09(t *testing.T) {
 		{"send", "send", "watch", "watch", "round-all-errors", "round-by-ticker", "round-by-ticker", "watch", "close"},
 		{"send", "round-by-ticker", "watch", "round-by-ticker", "close"},
 		{"send", "cancel-ok", "watch", "cancel-fail", "round-all", "round-all", "close"},
+		{"send", "watch", "block-query-fails-canceled", "send", "watch", "round-all", "close"},
+		{"send", "send", "watch", "block-query-fails-deadline", "round", "watch", "block-query-fails", "round-all", "close"},
 	}
 	emitCase := func(transport string, plan []string) {
 		caseNo := out.n
@@ -1051,7 +1087,7 @@ func TestVerifC09(t *testing.T) {
 		}
 	}
 	acts := []string{"send", "send", "watch", "watch", "round", "round", "round-all", "round-watch-inflight", "round-close-inflight", "close", "close-racing-watch",
-		"round-watch-during-delivery", "cancel-ok", "cancel-fail", "abandon"}
+		"round-watch-during-delivery", "cancel-ok", "cancel-fail", "abandon", "block-query-fails-canceled", "block-query-fails-deadline"}
 	for i := 0; i < vcount(60, 1200); i++ {
 		var plan []string
 		n := 3 + rng.intn(vcount(10, 24))
